@@ -9,30 +9,6 @@ package supervisor
 // which themselves import this package. Only plumbing is exported here, no
 // oracle logic.
 
-// C20SupervisorWatcherName is the name under which Supervisor registers its
-// own watcher in the object registry.
-const C20SupervisorWatcherName = watcherName
-
-var c20AllObjects []Object
-
-// C20KeepSystemControllers restricts the list of system controllers that
-// MustNew initialises (and Close closes) to the kinds accepted by keep. All
-// other registered objects are left alone. It always starts from the list as
-// it was after package initialisation.
-func C20KeepSystemControllers(keep func(kind string) bool) {
-	if c20AllObjects == nil {
-		c20AllObjects = append([]Object(nil), objectRegistryOrderByDependency...)
-	}
-	out := make([]Object, 0, len(c20AllObjects))
-	for _, o := range c20AllObjects {
-		if o.Category() == CategorySystemController && !keep(o.Kind()) {
-			continue
-		}
-		out = append(out, o)
-	}
-	objectRegistryOrderByDependency = out
-}
-
 // C20Pending returns the number of watchers registered in the object
 // registry, the number of watcher events not yet taken by their consumers
 // and the number of snapshots not yet taken by the registry. It reads plain
